@@ -22,7 +22,7 @@ Definition proxy_ok (raw model impl : seq nat) : bool :=
        all (fun i => all (fun j => (nth 0%nat raw i < nth 0%nat raw j)%nat ==> (nth 0%nat impl i < nth 0%nat impl j)%nat)
                          (iota 0 (size raw))) (iota 0 (size raw)).
 """
-TARGETS = ["Props/P_C19.vo"]
+TARGETS = ["Gen/GenQuery.vo", "Bridge/BridgeQuery.vo", "Props/P_C19.vo"]
 
 
 def okey(g, r, m):
@@ -34,7 +34,15 @@ def elem_terms(lay, i):
 
 
 def run(report, tier, seed):
-    ok = core.prove(report, TARGETS)
+    from harness.translators import query_tr
+    tr_ok = True
+    try:
+        facts = query_tr.generate(core.REPO, core.COQ)
+        report.coverage["source_facts"] = {fn: [nm for nm, v in d.items() if not v] for fn, d in facts.items()}
+    except Exception as exc:  # noqa: BLE001
+        tr_ok = False
+        report.notes.append(f"translator failed ({type(exc).__name__}: {exc})")
+    ok = core.prove(report, TARGETS if tr_ok else ["Proofs/QueryP.vo", "Proofs/ProxyP.vo", "Proofs/SetDimP.vo"]) and tr_ok
     rng = core.rng_for(seed, "C19")
     cc = core.CoqCases("C19", HEADER, shard=250)
     viol = []
@@ -239,9 +247,12 @@ def run(report, tier, seed):
             term, meta = cc.cases[idx]
             report.violation(f"model and implementation disagree on {meta}", {"kind": "correspondence", "term": term[:800], **meta})
         if not ok and not report.violations:
-            report.violation("C19: proof obligation no longer checks: " + str(report.coverage.get("broken_obligation", {}).get("where")),
-                             {"kind": "broken-proof", **report.coverage.get("broken_obligation", {})}, found_input=False)
-    report.coverage["trusted_base"] = ["Coq 8.16.1 kernel + VM", "MathComp / SsrMultinomials", "harness oracle for the proxy / argmax relations"]
+            report.violation("C19: bridge/proof obligation no longer checks: "
+                             + str(report.coverage.get("broken_obligation", {}).get("where") or report.notes[-1:] or report.coverage.get("source_facts")),
+                             {"kind": "broken-proof", "notes": report.notes[-3:], "source_facts": report.coverage.get("source_facts"),
+                              **report.coverage.get("broken_obligation", {})}, found_input=False)
+    report.coverage["trusted_base"] = ["Coq 8.16.1 kernel + VM", "MathComp / SsrMultinomials", "translator query_tr.py (statement-by-statement comparison of 7 functions with the statements the models were written from)",
+                                       "harness oracle for the argmax/argmin/amax/amin relations"]
     report.assumptions += ["integer coefficients", "set_dimensions is exercised on names q0..q(D-1) (its documented use)"]
 
 
